@@ -81,6 +81,7 @@ def run_property(pid, tier, seed, only_bounded=None, write=True, quiet=False):
 
     failed = [o for o in obligations + finite_obl if o['status'] != 'discharged']
     sha_now = dict((f['function'], f.get('source_sha1')) for f in functions)
+    loops_now = dict((f['function'], f.get('loop_headers', [])) for f in functions)
 
     # ---- tier B: bounded stand-ins (run-time contracts on the real functions)
     if bjob is not None:
@@ -120,9 +121,12 @@ def run_property(pid, tier, seed, only_bounded=None, write=True, quiet=False):
             if o.get('witness') is None:
                 v.input = dict(no_failing_input_found=True, obligation=o['name'])
             violations.append(v)
-        elif o['name'] in lock and changed and tierc == 'P' and o.get('kind') in PROOF_ARTIFACT_KINDS and o['status'] != 'sat':
-            # the sidecar invariant of a loop no longer fits the (changed) loop: the invariant is part of the proof, not of the
-            # property — a different loop may still establish the postcondition, so this is undecided, not a violation
+        elif (o['name'] in lock and changed and tierc == 'P' and o.get('kind') in PROOF_ARTIFACT_KINDS and o['status'] != 'sat'
+              and lock.get('__loops__', {}).get(o.get('function')) != loops_now.get(o.get('function'))):
+            # the loops of the function have been restructured (their header texts differ from the reference tree) and the sidecar
+            # invariant no longer fits: the invariant is part of the proof, not of the property — a different loop may still
+            # establish the postcondition, so this is "not re-established", not a violation.  With unchanged headers the invariant
+            # still describes the loop and its failure falls through to the next case.
             not_reestablished.append('%s: %s — the loop invariant given for the reference tree does not carry over to the changed loop of %s '
                              '(proof artefact; the postconditions are decided separately)' % (o['name'], o['status'], o.get('function')))
         elif o['name'] in lock and changed:
@@ -257,8 +261,9 @@ def do_lock(only=None):
         res = driver.verify_modules(spec['pyvc'], tier='thorough', prop=pid) if spec.get('pyvc') else dict(obligations=[], functions=[])
         sha = dict((f['function'], f.get('source_sha1')) for f in res['functions'])
         lock[pid] = dict((o['name'], sha.get(o['function'])) for o in res['obligations'] if o['status'] == 'discharged')
+        lock[pid]['__loops__'] = dict((f['function'], f.get('loop_headers', [])) for f in res['functions'] if f.get('loop_headers'))
         bad = [o['name'] for o in res['obligations'] if o['status'] != 'discharged']
-        print(pid, len(lock[pid]), 'obligations locked;', 'NOT discharged: %s' % bad if bad else 'all discharged')
+        print(pid, len(lock[pid]) - 1, 'obligations locked;', 'NOT discharged: %s' % bad if bad else 'all discharged')
     with open(LOCK, 'w') as f:
         json.dump(lock, f, indent=0, sort_keys=True)
 
